@@ -111,36 +111,27 @@ def isoformat(dt: datetime.date | datetime.time | datetime.timedelta) -> str:
     """
     if isinstance(dt, (datetime.date, datetime.time)):
         return dt.isoformat()
-    dur: pendulum.Duration = (
-        dt
-        if isinstance(dt, pendulum.Duration)
-        else pendulum.duration(
-            days=dt.days,
-            seconds=dt.seconds,
-            microseconds=dt.microseconds,
-        )
-    )
-    datepart = "".join(
-        f"{p}{s}"
-        for p, s in ((dur.years, "Y"), (dur.months, "M"), (dur.remaining_days, "D"))
-        if p
-    )
+    # Exact integer arithmetic on the normalized fields of the timedelta.
+    total = (dt.days * 86_400 + dt.seconds) * 1_000_000 + dt.microseconds
+    sign, total = ("-", -total) if total < 0 else ("", total)
+    seconds, micros = divmod(total, 1_000_000)
+    minutes, seconds = divmod(seconds, 60)
+    hours, minutes = divmod(minutes, 60)
+    days, hours = divmod(hours, 24)
+    datepart = f"{days}D" if days else ""
     timepart = "".join(
         f"{p}{s}"
         for p, s in (
-            (dur.hours, "H"),
-            (dur.minutes, "M"),
-            (
-                f"{dur.remaining_seconds}.{dur.microseconds:06}"
-                if dur.microseconds
-                else dur.remaining_seconds,
-                "S",
-            ),
+            (hours, "H"),
+            (minutes, "M"),
+            (f"{seconds}.{micros:06}" if micros else seconds, "S"),
         )
         if p
     )
-    period = f"P{datepart}T{timepart}"
-    return period
+    if not (datepart or timepart):
+        # Zero keeps its historic spelling (strict ISO 8601 would want e.g. "PT0S").
+        return "PT"
+    return f"{sign}P{datepart}" + (f"T{timepart}" if timepart else "")
 
 
 _T = t.TypeVar("_T")
